@@ -20,7 +20,9 @@ walks both proposal queues completely, runs validate-all / execute-all / record 
 signer with the target, and rejects validator operators and targets with staking records -/
 theorem cfg_from_code :
     cfg = { rewriteDelIdx := true, rewriteUnbId := true, govScanAll := true, orderOk := true,
-            sigRequired := true, checkOperator := true, checkTarget := true } := by decide
+            sigRequired := true, checkOperator := true, checkTarget := true,
+            recKeyFrom := "GetMigratedRecordKey", recKeyTo := "GetMigratedRecordKey",
+            wRecFrom := true, wRecTo := true, wDirFrom := true, wDirTo := true, bankAll := true } := by decide
 
 /-- the bytes `ValidateBasic` hashes are prefix ++ source ++ target, in this order -/
 theorem signed_bytes_order (pfx : List Nat) (enc : Addr → List Nat) (frm to : Addr) :
@@ -31,14 +33,33 @@ theorem signed_bytes_order (pfx : List Nat) (enc : Addr → List Nat) (frm to : 
 
 /-- what `migrate` does once every check passed -/
 def moved (s : State) (frm to : Addr) : State :=
-  setRecord (stakingExecute cfg (bankExecute s frm to) frm to) frm to
+  setRecord cfg (stakingExecute cfg (bankExecute cfg s frm to) frm to) frm to
+
+theorem cfg_bankAll : cfg.bankAll = true := by rw [cfg_from_code]
+
+/-- the already-migrated guards read from the code are `HasMigrateRecord` (the record key family, keyed by the raw
+address whatever its role was) for the source and for the target -/
+theorem recGuard_cfg (s : State) (a : Addr) :
+    recGuard cfg.recKeyFrom s a = (get s.recs a).isSome ∧ recGuard cfg.recKeyTo s a = (get s.recs a).isSome := by
+  rw [cfg_from_code]
+  exact ⟨by simp [recGuard], by simp [recGuard]⟩
+
+/-- `SetMigrateRecord` as read from the code: the record under both addresses, both direction flags -/
+theorem setRecord_cfg (s : State) (frm to : Addr) :
+    setRecord cfg s frm to = { s with recs := put (put s.recs frm (true, to)) to (false, frm),
+                                      dirFrom := ins s.dirFrom frm, dirTo := ins s.dirTo to } := by
+  unfold setRecord
+  rw [cfg_from_code]
+  rfl
 
 /-- inversion of an accepted migration: every check passed, and the state is the executed one -/
 theorem migrate_ok_inv {s s' : State} {frm to : Addr} {sigOk : Bool} (h : migrate cfg s frm to sigOk = .ok s') :
     frm ≠ to ∧ sigOk = true ∧ get s.recs frm = none ∧ get s.recs to = none ∧ s.hasKey.contains frm = true ∧
     stakingValidate cfg s frm to = none ∧ govRefuses cfg s frm to = false ∧ s' = moved s frm to := by
   unfold migrate at h
-  rw [cfg_from_code] at h
+  rw [(recGuard_cfg s frm).1, (recGuard_cfg s to).2] at h
+  have hsig : cfg.sigRequired = true := by rw [cfg_from_code]
+  rw [hsig] at h
   simp only [Bool.true_and] at h
   split at h
   · cases h
@@ -52,21 +73,30 @@ theorem migrate_ok_inv {s s' : State} {frm to : Addr} {sigOk : Bool} (h : migrat
         split at h
         · cases h
         · rename_i h4
-          rw [← cfg_from_code] at h
           split at h
           · cases h
           · rename_i h5
             split at h
             · cases h
             · rename_i h6
-              cases h
-              refine ⟨?_, ?_, ?_, ?_, ?_, h5, ?_, rfl⟩
-              · intro e; subst e; simp at h1
-              · simpa using h2
-              · cases hh : get s.recs frm <;> simp_all
-              · cases hh : get s.recs to <;> simp_all
-              · simpa using h4
-              · simpa using h6
+              split at h
+              · cases h
+              · cases h
+                refine ⟨?_, ?_, ?_, ?_, ?_, h5, ?_, rfl⟩
+                · intro e; subst e; simp at h1
+                · simpa using h2
+                · cases hh : get s.recs frm <;> simp_all
+                · cases hh : get s.recs to <;> simp_all
+                · simpa using h4
+                · simpa using h6
+
+/-- an accepted migration found no coin of the source that its single `SendCoins` could not move -/
+theorem migrate_ok_not_blocked {s s' : State} {frm to : Addr} {sigOk : Bool} (h : migrate cfg s frm to sigOk = .ok s') :
+    bankBlocked cfg s frm = false := by
+  unfold migrate at h
+  repeat (split at h; · cases h)
+  rename_i hb
+  simpa using hb
 
 /-- **needs_target_signature**: an accepted migration carries a signature from which the (opaque) recovery function,
 applied to the (opaque) hash of prefix ++ source ++ target, yields exactly the target address -/
@@ -245,7 +275,7 @@ theorem portfolio_moved_delegations {s s' : State} {frm to : Addr} {sigOk : Bool
     get s'.dels (d, v) = if d = to then get s.dels (frm, v) else if d = frm then none else get s.dels (d, v) := by
   obtain ⟨hne, _, _, _, _, _, _, rfl⟩ := migrate_ok_inv h
   have hto := (target_without_staking_records h).1
-  show get (stakingExecute cfg (bankExecute s frm to) frm to).dels (d, v) = _
+  show get (stakingExecute cfg (bankExecute cfg s frm to) frm to).dels (d, v) = _
   rw [exec_dels]
   exact rekey_spec s.dels frm to hne hto d v
 
@@ -255,7 +285,7 @@ theorem portfolio_moved_unbonding {s s' : State} {frm to : Addr} {sigOk : Bool}
     get s'.ubds (d, v) = if d = to then get s.ubds (frm, v) else if d = frm then none else get s.ubds (d, v) := by
   obtain ⟨hne, _, _, _, _, _, _, rfl⟩ := migrate_ok_inv h
   have hto := (target_without_staking_records h).2.1
-  show get (stakingExecute cfg (bankExecute s frm to) frm to).ubds (d, v) = _
+  show get (stakingExecute cfg (bankExecute cfg s frm to) frm to).ubds (d, v) = _
   rw [exec_ubds]
   exact rekey_spec s.ubds frm to hne hto d v
 
@@ -303,7 +333,7 @@ theorem queues_rewritten_delegation_index {s s' : State} {frm to : Addr} {sigOk 
   have hx : ∀ v a, (v, a) ∈ (moved s frm to).delIdx ↔
       if ∃ p ∈ entriesOf s.dels frm, p.1.2 = v then (a = to ∨ (a ≠ frm ∧ (v, a) ∈ s.delIdx))
       else (v, a) ∈ s.delIdx := fun v a => by
-    show (v, a) ∈ (stakingExecute cfg (bankExecute s frm to) frm to).delIdx ↔ _
+    show (v, a) ∈ (stakingExecute cfg (bankExecute cfg s frm to) frm to).delIdx ↔ _
     rw [exec_delIdx]
     exact idx_fold_mem frm to hne (entriesOf s.dels frm) s.delIdx v a
   constructor
@@ -333,7 +363,7 @@ theorem queues_rewritten_unbonding_index {s s' : State} {frm to : Addr} {sigOk :
   have hx : ∀ v a, (v, a) ∈ (moved s frm to).ubdIdx ↔
       if ∃ p ∈ entriesOf s.ubds frm, p.1.2 = v then (a = to ∨ (a ≠ frm ∧ (v, a) ∈ s.ubdIdx))
       else (v, a) ∈ s.ubdIdx := fun v a => by
-    show (v, a) ∈ (stakingExecute cfg (bankExecute s frm to) frm to).ubdIdx ↔ _
+    show (v, a) ∈ (stakingExecute cfg (bankExecute cfg s frm to) frm to).ubdIdx ↔ _
     rw [exec_ubdIdx]
     exact idx_fold_mem frm to hne (entriesOf s.ubds frm) s.ubdIdx v a
   constructor
@@ -356,8 +386,8 @@ theorem queues_rewritten_unbonding_index {s s' : State} {frm to : Addr} {sigOk :
 
 /-! ## portfolio_moved: balances, redelegations, reward entitlement; totals -/
 
-theorem moved_bal (s : State) (frm to : Addr) : (moved s frm to).bal = (bankExecute s frm to).bal :=
-  exec_bal cfg (bankExecute s frm to) frm to
+theorem moved_bal (s : State) (frm to : Addr) : (moved s frm to).bal = (bankExecute cfg s frm to).bal :=
+  exec_bal cfg (bankExecute cfg s frm to) frm to
 
 /-- **portfolio_moved** (bank balances, every denomination): after an accepted migration the target holds its prior
 balance plus the source's, the source holds nothing, every other account (users, module pools) is untouched -/
@@ -367,7 +397,7 @@ theorem portfolio_moved_balances {s s' : State} {frm to : Addr} {sigOk : Bool}
       if a = to then balOf s.bal to d + balOf s.bal frm d else if a = frm then 0 else balOf s.bal a d := by
   obtain ⟨hne, _, _, _, _, _, _, rfl⟩ := migrate_ok_inv h
   rw [moved_bal]
-  exact bankExecute_spec s frm to hne a d
+  exact bankExecute_spec cfg cfg_bankAll s frm to hne a d
 
 /-- **portfolio_moved** (redelegations, with all their entries: completion time, balance, unbonding id) -/
 theorem portfolio_moved_redelegations {s s' : State} {frm to : Addr} {sigOk : Bool}
@@ -376,7 +406,7 @@ theorem portfolio_moved_redelegations {s s' : State} {frm to : Addr} {sigOk : Bo
       if d = to then get s.reds (frm, src, dst) else if d = frm then none else get s.reds (d, src, dst) := by
   obtain ⟨hne, _, _, _, _, _, _, rfl⟩ := migrate_ok_inv h
   have hto := (target_without_staking_records h).2.2
-  show get (stakingExecute cfg (bankExecute s frm to) frm to).reds (d, src, dst) = _
+  show get (stakingExecute cfg (bankExecute cfg s frm to) frm to).reds (d, src, dst) = _
   rw [exec_reds]
   exact rekey_spec s.reds frm to hne hto d (src, dst)
 
@@ -399,7 +429,7 @@ theorem portfolio_moved_starting_info {s s' : State} {frm to : Addr} {sigOk : Bo
         (if a = frm then none else if a = to then (get s.startInfo (v, frm) <|> get s.startInfo (v, to))
          else get s.startInfo (v, a))
       else get s.startInfo (v, a) := fun a => by
-    show get (stakingExecute cfg (bankExecute s frm to) frm to).startInfo (v, a) = _
+    show get (stakingExecute cfg (bankExecute cfg s frm to) frm to).startInfo (v, a) = _
     rw [exec_startInfo]
     exact get_siFold frm to hne _ _ v a
   refine ⟨fun ⟨sh, hsh⟩ => ?_, fun hnone => ?_, fun a h1 h2 => ?_⟩
@@ -443,12 +473,37 @@ theorem totals_unchanged {s s' : State} {frm to : Addr} {sigOk : Bool} (h : migr
       (fun d x => portfolio_moved_redelegations h d x.1 x.2) (fun o => ((o.getD []).map (·.2.1)).sum) rfl (src, dst) a)
       A hA hboth
 
+/-- **all or refuse** (bank): an accepted migration leaves the source without any balance in any denomination; a
+refused one leaves the whole state — balances, records, the one-shot migration record — as it was; and a source that
+holds a coin it cannot spend (a vesting account with locked coins) is refused as a whole, because the bank handler sends
+`GetAllBalances(from)` in one `SendCoins`. -/
+theorem migrate_all_or_refuse (s : State) (frm to : Addr) (sigOk : Bool) :
+    (∀ s', migrate cfg s frm to sigOk = .ok s' → ∀ d, balOf s'.bal frm d = 0) ∧
+    (∀ e, migrate cfg s frm to sigOk = .error e → (step cfg s (.migrate frm to sigOk)).1 = s) ∧
+    ((∃ d n, get s.bal (frm, d) = some n ∧ 0 < n ∧ 0 < lockedOf s frm d) → ∀ s', migrate cfg s frm to sigOk ≠ .ok s') := by
+  refine ⟨fun s' h d => ?_, fun e h => ?_, fun ⟨d, n, hg, hn, hl⟩ s' h => ?_⟩
+  · rw [portfolio_moved_balances h frm d]
+    have hne := (migrate_ok_inv h).1
+    simp [hne]
+  · simp only [step, h]
+  · have hb := migrate_ok_not_blocked h
+    unfold bankBlocked bankAmounts at hb
+    rw [cfg_bankAll] at hb
+    simp only [↓reduceIte] at hb
+    have := List.any_eq_false.mp hb (d, n) (balancesOf_mem s.bal frm d n hg)
+    have hbal : balOf s.bal frm d = n := by simp [balOf, hg]
+    simp only [hbal] at this
+    apply this
+    simp only [Bool.and_eq_true, decide_eq_true_eq]
+    exact ⟨hn, by omega⟩
+
+
 /-! ## queues_rewritten: redelegation indexes, time-queue slices -/
 
 theorem moved_reds_eq (s : State) (frm to : Addr) :
     (moved s frm to).redSrcIdx = (entriesOf s.reds frm).foldl (idxStepG mkSrc frm to) s.redSrcIdx ∧
     (moved s frm to).redDstIdx = (entriesOf s.reds frm).foldl (idxStepG mkDst frm to) s.redDstIdx :=
-  ⟨exec_redSrcIdx cfg (bankExecute s frm to) frm to, exec_redDstIdx cfg (bankExecute s frm to) frm to⟩
+  ⟨exec_redSrcIdx cfg (bankExecute cfg s frm to) frm to, exec_redDstIdx cfg (bankExecute cfg s frm to) frm to⟩
 
 /-- **queues_rewritten** (redelegations-by-source-validator 0x35 and by-destination-validator 0x36 indexes): afterwards
 no entry of either index mentions the source, every redelegation of the target is indexed in both, and the entries of
@@ -487,11 +542,11 @@ theorem queues_rewritten_time_slices {s s' : State} {frm to : Addr} {sigOk : Boo
   obtain ⟨hne, _, _, _, _, _, _, rfl⟩ := migrate_ok_inv h
   have hu : get (moved s frm to).ubdQ t = if t ∈ entryTimes s.ubds frm then
       (get s.ubdQ t).map (List.map (renG frm to)) else get s.ubdQ t := by
-    show get (stakingExecute cfg (bankExecute s frm to) frm to).ubdQ t = _
+    show get (stakingExecute cfg (bankExecute cfg s frm to) frm to).ubdQ t = _
     rw [exec_ubdQ]; exact get_qFold frm to hne _ _ t
   have hr : get (moved s frm to).redQ t = if t ∈ entryTimes s.reds frm then
       (get s.redQ t).map (List.map (renG frm to)) else get s.redQ t := by
-    show get (stakingExecute cfg (bankExecute s frm to) frm to).redQ t = _
+    show get (stakingExecute cfg (bankExecute cfg s frm to) frm to).redQ t = _
     rw [exec_redQ]; exact get_qFold frm to hne _ _ t
   refine ⟨fun he => ?_, fun he => ?_, fun he => ?_, fun he => ?_⟩
   · rw [hu, if_pos ((mem_entryTimes _ _ _).mpr he)]; rfl
@@ -578,7 +633,7 @@ theorem records_kept (s : State) (op : Op) (a : Addr) (h : (get s.recs a).isSome
     simp only [step]
     apply keep
     intro s' hs
-    cases hb : sendCoins s.bal x y d n <;> simp [hb] at hs
+    cases hb : sendUnlocked s.bal (lockedOf s x d) x y d n <;> simp [hb] at hs
     subst hs; rfl
   | mint x d n => exact h
   | delegate d v amt rw => exact keep _ (fun s' hs => delegate_recs hs)
@@ -603,7 +658,7 @@ theorem records_kept (s : State) (op : Op) (a : Addr) (h : (get s.recs a).isSome
         by_cases h2 : a = f
         · subst h2; rw [get_put_eq]; rfl
         · rw [get_put_ne _ _ _ _ h2]
-          have hrec : (stakingExecute cfg (bankExecute s f t) f t).recs = s.recs := by
+          have hrec : (stakingExecute cfg (bankExecute cfg s f t) f t).recs = s.recs := by
             unfold stakingExecute
             refine (foldl_keep (fun s : State => s.recs) _ (fun s p => by
               unfold moveRed; exact foldl_keep (fun s : State => s.recs) _ (by intros; rfl) _ _) _ _).trans ?_
